@@ -23,12 +23,18 @@ CROSS = {"C01-C": ["C08"], "C08-C": ["C02", "C06"], "C16-C": ["C04"], "C05-C": [
          # round 7 (M, N)
          "C08-N": ["C02", "C06"], "C08-M": ["C19"], "C07-N": ["C19"], "C17-N": ["C19"], "C12-M": ["C13"], "C16-M": ["C04", "C10"],
          # round 8 (O, P)
-         "C02-O": ["C06"], "C19-P": ["C04"], "C10-P": ["C04", "C16"], "C16-P": ["C04"], "C04-P": ["C10"], "C08-O": ["C02", "C06"], "C12-P": ["C13"]}
+         "C02-O": ["C06"], "C19-P": ["C04"], "C10-P": ["C04", "C16"], "C16-P": ["C04"], "C04-P": ["C10"], "C08-O": ["C02", "C06"], "C12-P": ["C13"],
+         # round 9 (Q, R)
+         "C01-R": ["C04", "C10"], "C05-Q": ["C03"], "C03-Q": ["C05"], "C12-Q": ["C20"], "C20-R": ["C18"],
+         # round 10 (S, T)
+         "C01-T": ["C10"], "C11-S": ["C13"], "C12-S": ["C13"], "C16-S": ["C04", "C10"], "C15-S": ["C19"], "C19-S": ["C15"]}
 THOROUGH_ONLY = {("C16-B", "C16"), ("C16-D", "C16"), ("C02-P", "C02")}   # C02-P: the NDEBUG build of the MPI leg
-NOT_EXPECTED = {"C06-N", "C09-N", "C09-P"}   # kept with meta.json "expected": "not detected" (BUILD_REPORT.md, round 7)
+NOT_EXPECTED = {"C06-N", "C09-N", "C09-P", "C06-T"}   # kept with meta.json "expected": "not detected" (BUILD_REPORT.md, rounds 7, 8, 10; C06-T repeats C06-N)
 # C19-E / C19-F change the refinement functions themselves (the subject of C08 / C07),
 # which C19 takes as given (it checks that each iteration uses the refinement of the previous result)
-OWN_BY_OTHER = {"C19-E": "C08", "C19-F": "C07", "C02-H": "C14", "C19-N": "C08", "C04-N": "C12", "C20-M": "C18"}   # C02-H: a compensation slot shared with the integral (C14's subject)
+OWN_BY_OTHER = {"C19-E": "C08", "C19-F": "C07", "C02-H": "C14", "C19-N": "C08", "C04-N": "C12", "C20-M": "C18",
+                # C01-T: the discards of mpi_multi_channel (C04's subject); C09-S / C09-T: the refinement re-enables a disabled channel resp. produces NaN weights (C08's subject)
+                "C01-T": "C04", "C09-S": "C08", "C09-T": "C08"}   # C02-H: a compensation slot shared with the integral (C14's subject)
 PREFIX = {"5240915": ["C15"], "ac56e79": ["C15"], "bb5946d": ["C12"], "08987f4": ["C09"], "47037e0": ["C07"], "dfee5c7": ["C08"],
           "84d9fba": ["C05", "C03"], "4d363c6": ["C18"], "d91dcdf": ["C11"], "1c25063": ["C07"], "7c3b427": ["C05", "C03"]}
 
